@@ -6,6 +6,8 @@
        violate chosen_is_best / params_exact — these are the mutations the check must see. *)
 From Coq Require Import List String Ascii Bool ZArith.
 From GZ Require Import C09.Model C09.Spec.
+(* the pinned variants of the seeded changes C09-4 .. C09-11 live in PinnedSeeds.v *)
+From GZ Require Export C09.PinnedSeeds.
 Import ListNotations.
 Open Scope string_scope.
 
